@@ -41,7 +41,7 @@ import (
 type algStats struct {
 	Ops, Ceremonies, Batches, SignaturesChecked, SharesChecked, SubsetsChecked int
 	C07Schedules, C07Races, C11Scenarios                                       int
-	CraftedBatches, PartialsChecked                                            int
+	CraftedBatches, PartialsChecked, FaultySignerBatches                       int
 	C07Exhaustive                                                              string
 	Configs                                                                    []string
 	OutcomeHist                                                                map[string]int
@@ -63,6 +63,9 @@ type algRun struct {
 	suit pairing.Suite
 	// craft: the tasks of the next proposal, posted as they are (signBatch takes them instead of data / range)
 	craft []requests.SigningTask
+	// safetyOnly: the batch being checked had a faulty signer among the first t: nothing invalid may be stored or broadcast,
+	// but that every node ends up with a signature is not claimed (C07 speaks of slow signers, not of faulty ones)
+	safetyOnly bool
 }
 
 func (a *algRun) emit(op, ob string) {
@@ -277,7 +280,10 @@ func (a *algRun) signBatch(c *cluster, round string, proposer int, data map[stri
 	if crafted != "" && batch != crafted {
 		errs = append(errs, "the crafted proposal is not the last one on the board")
 	}
-	defer a.partialsOverProposed(c, round, batch, proposal.SigningTasks)
+	if !a.safetyOnly {
+		// (not for the batch in which the harness itself made one signer's partial signatures wrong)
+		defer a.partialsOverProposed(c, round, batch, proposal.SigningTasks)
+	}
 	answer := func(i int) {
 		n := c.nodes[i]
 		for _, op := range n.pendingOps() {
@@ -455,6 +461,9 @@ func (a *algRun) checkSignatures(c *cluster, round, batch string, secret kyber.S
 				}
 			}
 		}
+		if a.safetyOnly {
+			continue
+		}
 		for _, w := range want {
 			if !have[w.File] {
 				a.mon(fmt.Sprintf("C07 every_node_stores %s: node %d has no reconstructed signature for %q of batch %s", tag, i, w.File, batch))
@@ -616,6 +625,45 @@ func runAlgDiff(outDir string, seed int64, tier string) {
 				for k, sc := range scheds {
 					a.runSchedule(c, round, secret, gk, sc, k, tag)
 				}
+				// C01, safety with a faulty signer (last in the ceremony: the round may not recover from it): the first signer's
+				// machine result is altered on its way to its node - its partial signatures are not signatures of these payloads
+				// (a bit flipped; with several messages, the signatures swapped between them). Whatever the nodes then
+				// reconstruct, store or broadcast must still verify; that they reconstruct at all is not claimed.
+				perm := a.rng.Perm(cf.n)
+				faulty := perm[0]
+				c.resultHook = func(nd *vnode, res *ctypes.Operation) {
+					if nd.idx != faulty || !strings.HasPrefix(string(res.Type), "state_signing_") {
+						return
+					}
+					for i := range res.ResultMsgs {
+						var req requests.SigningProposalBatchPartialSignRequests
+						if json.Unmarshal(res.ResultMsgs[i].Data, &req) != nil || len(req.PartialSigns) == 0 {
+							continue
+						}
+						if len(req.PartialSigns) > 1 && a.rng.Intn(2) == 0 {
+							req.PartialSigns[0].Sign, req.PartialSigns[1].Sign = req.PartialSigns[1].Sign, req.PartialSigns[0].Sign
+						} else {
+							for k := range req.PartialSigns {
+								sg := append([]byte(nil), req.PartialSigns[k].Sign...)
+								if len(sg) > 10 {
+									sg[len(sg)-3] ^= 0x10
+								}
+								req.PartialSigns[k].Sign = sg
+							}
+						}
+						if bz, err := json.Marshal(req); err == nil {
+							res.ResultMsgs[i].Data = bz
+						}
+					}
+				}
+				data := map[string][]byte{"faulty-1.bin": []byte("signed with one faulty signer among the first"), "faulty-2.bin": []byte("second message of that batch")}
+				signers := perm[:cf.t]
+				a.safetyOnly = true
+				batch, want, _ := a.signBatch(c, round, perm[cf.n-1], data, [2]int{}, signers, perm[cf.t:], a.rng.Intn(2) == 0)
+				c.resultHook = nil
+				a.st.FaultySignerBatches++
+				a.checkSignatures(c, round, batch, secret, gk, want, fmt.Sprintf("%s batch with faulty signer %d first, signers=%v", tag, faulty, signers))
+				a.safetyOnly = false
 			}
 		}
 		c.close()
